@@ -229,6 +229,37 @@ def main():
                 pass
             finally:
                 signal.setitimer(signal.ITIMER_REAL, 0)
+            # the same graph on ONE HDD object, every snapshot in turn: what an earlier (successful or refused) open left behind must not
+            # switch off the protection of a later one
+            if not fails:
+                hobj = None
+                for gi in range(k):
+                    evals += 1
+                    signal.setitimer(signal.ITIMER_REAL, 5.0)
+                    try:
+                        hobj = hobj or HDD(root)
+                        hobj.open(G[gi])
+                    except Timeout:
+                        def again_seq(upto=gi):
+                            h2 = HDD(root)
+                            for gj in range(upto + 1):
+                                try:
+                                    h2.open(G[gj])
+                                except Timeout:
+                                    raise
+                                except BaseException:  # noqa: BLE001
+                                    pass
+
+                        if still_hangs(again_seq):
+                            fails.append({"kind": "timeout", "mutation": f"snapshot parents {parents}, snapshots opened in turn on one HDD object up to #{gi}", "detail": "HDD.open did not return within 5s and again not within 60s"})
+                        break
+                    except MemoryError:
+                        fails.append({"kind": "memory", "mutation": f"snapshot parents {parents} (one object)", "detail": "MemoryError"})
+                        break
+                    except BaseException:  # noqa: BLE001
+                        pass
+                    finally:
+                        signal.setitimer(signal.ITIMER_REAL, 0)
         # storages with holes, overlaps, empty and reversed ranges: open and read across every boundary
         for case in range(max(n * 6, 30)):
             if fails:
